@@ -1,15 +1,24 @@
 /-
-C07 — transaction admission is sound and fee-exact. Property theorems only
-(helper lemmas: Proofs/FeesGas, FeesRun, FeesCalc, FeesAdmit; models: Model/Fees, Model/Admission).
+C07 — transaction admission is sound and fee-exact, and the pool's content forms proposable blocks. Property theorems only
+(helper lemmas: Proofs/FeesGas, FeesRun, FeesCalc, FeesAdmit, FeesBlock, FeesBlockPool, FeesPick, FeesRelevant, FeesNative,
+FeesFields, FeesFrame; models: Model/Fees, Model/Admission, Model/Fees/Block, Model/Fees/Native, Model/Fees/FeeFields).
 
 Reading guide. `Fees.runWitness e inv ver` is the price interpreter over the bytes of invocation +
 verification script (the gas the VM charges); `Fees.calculate base script` is `fee.Calculate`;
 `Fees.builtMultisig m keys` / `Fees.sigScript key` are the scripts the builders emit;
 `Admission.admit c p t = none` means "PoolTx / VerifyTx accept". Signature cryptography is a parameter
 (`validKey`, `verify`), the transaction size a number (codecs: C17).
+Sections: 1 calculator = VM charge; 2 calculator = acceptance threshold; 3 admission is sound; 4 packing
+(`Pack.applyPolicyM`, `Pack.pick`, `Pack.verifyBlock`, `Pack.ledgerLoop`), 4b the pool's filter after a block
+(`Pack.stillRelevant`); 5 well-formedness from the wire; 6 NotaryAssisted / OracleResponse transactions
+(`Native.notaryVerify`, `Native.oracleVerify`); 7 sign and overflow of the fee fields (`FeeFields`); 8 what the
+admission reads of the chain.
 -/
 import NeoModel.Proofs.FeesAdmit
-import NeoModel.Proofs.FeesPack
+import NeoModel.Proofs.FeesRelevant
+import NeoModel.Proofs.FeesNative
+import NeoModel.Proofs.FeesFields
+import NeoModel.Proofs.FeesFrame
 namespace NeoModel.C07
 open NeoModel NeoModel.Fees NeoModel.Admission
 open NeoModel.Generated.FeeConsts
@@ -252,41 +261,231 @@ example : ∃ gs, AllVerify exChain ((exTx.signers).map (·.wit)) gs ∧ 200 * 1
 end NeoModel.C07
 
 namespace NeoModel.C07
-open NeoModel NeoModel.Fees NeoModel.Admission
+open NeoModel NeoModel.Fees NeoModel.Admission NeoModel.Pack
+open NeoModel.Generated.FeeConsts
 open NeoModel.Wire (varUintSize)
 
-/-! ## 4. what is packed is a prefix of the pool within the limits -/
+/-! ## 4. what the proposer packs is a proposable block
 
-/-- **packing_valid_partial.** `ApplyPolicyToTxSet` returns a prefix of the pool (in pool order), at most
-MaxTransactionsPerBlock long, whose system fees are within MaxBlockSystemFee and for which
-`overhead + varsize(count) + Σ sizes ≤ MaxBlockSize`, where `overhead` is the size of the block without
-transactions (header incl. `PrevStateRoot` when StateRootInHeader, default block witness).
+`Pack.applyPolicyM` is `ApplyPolicyToTxSet` with the code's uint32 / int64 arithmetic; `Pack.pick cfg pool` is what the
+proposer puts into the block (pool order, then the cut); `Pack.encodeBlock` is `Block.EncodeBinary`;
+`Pack.verifyBlock` the backup's check of a proposal, `Pack.ledgerLoop` the transaction loop of `AddBlock`;
+`Pack.stillRelevant` the filter the pool applies to its content after every block. -/
 
-Partial with respect to the statement's last sentence: "… is accepted by the ledger after being serialised
-and parsed again", i.e. `addBlock s (decode (encode (mkBlock (applyPolicy pool)))) = ok`, needs the block model
-of C06 and the codecs of C17; here it is covered by the `proposal` stream (tie + search on the real code:
-wire round trip, backup-side checks and AddBlock on a replica) only. That `overhead` is the real size of the
-empty block is tied by the same stream (the oracle measures the encoded block); before fix 2cbe22b it omitted
-the 32 bytes of `PrevStateRoot` and the stream's boundary-directed cases found blocks above MaxBlockSize. -/
-theorem packing_valid_partial (cfg : PackCfg) (txs : List (Nat × Nat)) :
-    applyPolicy cfg txs <+: txs
-    ∧ (cfg.maxTx ≠ 0 → (applyPolicy cfg txs).length ≤ cfg.maxTx)
-    ∧ (applyPolicy cfg txs = [] ∨
-        (cfg.overhead + varUintSize (applyPolicy cfg txs).length + sizes (applyPolicy cfg txs) ≤ cfg.maxBlockSize
-          ∧ fees (applyPolicy cfg txs) ≤ cfg.maxBlockSysFee)) := by
-  rw [applyPolicy_eq]
-  have hp := packLoop_prefix cfg (capped cfg txs) (cfg.overhead + varUintSize (capped cfg txs).length) 0
-  refine ⟨List.IsPrefix.trans hp (capped_prefix cfg txs), ?_, ?_⟩
-  · intro h
-    exact Nat.le_trans hp.length_le (capped_length cfg txs h)
-  · rcases packLoop_bounds cfg (capped cfg txs) (cfg.overhead + varUintSize (capped cfg txs).length) 0 with h0 | ⟨h1, h2⟩
-    · left; exact h0
-    · right
-      have := varUintSize_mono hp.length_le
-      constructor <;> omega
+/-- **block_wire_size.** `GetExpectedBlockSize` — the number `ApplyPolicyToTxSet` and the backups compare with
+MaxBlockSize — is the length of `Block.EncodeBinary`, for every header (with or without state root), every block
+witness and all transactions (byte strings). -/
+theorem block_wire_size (h : Header) (txs : List Bytes) (hw : h.WF) (hn : txs.length ≤ 0xFFFFFFFF) :
+    (encodeBlock h txs).length = expectedBlockSize h.stateRootEnabled h.inv h.ver (txs.map List.length) :=
+  encodeBlock_length h txs hw hn
 
--- non-vacuity: a pool of four, the third breaks the size limit
-example : applyPolicy ⟨10, 1000, 100, 700⟩ [(100, 1), (100, 2), (150, 3), (10, 4)] = [(100, 1), (100, 2)] := by decide
+set_option maxRecDepth 100000 in
+example : (encodeBlock { zeroHeader with stateRootEnabled := true, inv := [1, 2], ver := [3] } [[7, 7, 7], [8]]).length
+    = expectedBlockSize true [1, 2] [3] [3, 1] := by decide
+
+/-- the generated constant `expectedHeaderSizeWithEmptyWitness` is the wire size of `new(Header)` and the
+size of the empty block is what the linked package reports (regenerated from the source on every run). -/
+theorem header_size_constant :
+    (Header.encode zeroHeader).length = expectedHeaderSizeWithEmptyWitness
+    ∧ expectedSizeWithoutTx false [] [] 0 = emptyBlockExpectedSize := ⟨zeroHeader_size, emptyBlock_size⟩
+
+/-- **block_witness_size.** The default block witness `ApplyPolicyToTxSet` sizes the proposal with (66·m zero
+bytes + the validators' script) has exactly the wire size of the witness the block finally carries (m signatures
+of 64 bytes pushed with PUSHDATA1, same script). -/
+theorem block_witness_size (ver : Bytes) (sigs : List Bytes) (hs : ∀ sg ∈ sigs, sg.length = 64) :
+    (encodeWitness (invScript sigs) ver).length = (encodeWitness (List.replicate (66 * sigs.length) 0) ver).length := by
+  simp [encodeWitness, invScript_length sigs hs]
+
+/-- **no_wraparound.** On admitted transactions (size ≤ MaxTransactionSize, 0 ≤ system fee ≤ MaxBlockSystemFee)
+and with `overhead + 9 + MaxTransactionSize < 2^32`, `MaxBlockSize + MaxTransactionSize < 2^32`,
+`2·MaxBlockSystemFee < 2^63`, the uint32 block size and the int64 fee total of `ApplyPolicyToTxSet` never wrap:
+the function computes with exact integers. -/
+theorem no_wraparound (cfg : Cfg) (hs : Sane cfg) (ps : List (Nat × Int))
+    (hb : ∀ t ∈ ps, t.1 ≤ maxTransactionSize ∧ 0 ≤ t.2 ∧ t.2 ≤ cfg.maxBlockSysFee) :
+    applyPolicyM cfg ps = packLoopN cfg.maxBlockSize cfg.maxBlockSysFee
+      (overheadOf cfg.stateRoot cfg.inv cfg.ver + varUintSize (capped cfg.maxTx ps).length) 0 (capped cfg.maxTx ps) :=
+  applyPolicyM_exact cfg hs ps hb
+
+/-- the hypothesis is needed: with MaxBlockSize at the top of the uint32 range the size counter wraps and a
+transaction that does not fit is taken. -/
+example : applyPolicyM ⟨0, 2 ^ 32 - 50, 10, false, [], []⟩ [(40, 0), (102400, 0)] = [(40, 0), (102400, 0)] := by decide
+
+/-- **packing_valid_partial.** Let `pool` be the pool's content in pool order, consistent in the sense C08 proves
+of every reachable pool (each transaction once, no two in conflict, one response per oracle request, every payer's
+fees within its balance), every transaction individually admissible on the current chain state; let the
+configuration be free of wrap-around and the block's witness have the size of the default one. Then what the
+proposer packs
+* is a prefix of the pool in pool order (so any order the pool keeps is kept), at most MaxTransactionsPerBlock long;
+* is cut exactly: every non-empty prefix of it satisfies `overhead + varsize(count of the capped list) + Σ sizes ≤
+  MaxBlockSize` and `Σ system fees ≤ MaxBlockSystemFee` (with equality allowed), and unless the count limit cut,
+  the next pool transaction breaks one of the two;
+* passes the backup's `verifyBlock` — wire size of the real block within MaxBlockSize, every transaction accepted into
+  the scratch pool (whether or not the backup already holds it), system fee total — and the transaction loop of
+  `AddBlock` with its count check (an empty selection needs the empty block to fit).
+
+Partial with respect to the statement: (1) "every transaction individually admissible on the current state" is what
+`stillRelevant_sound` derives from the pool's filter, except for witnesses `scparser` takes for standard multisig
+contracts without their being the builder's output (`stillRelevant_noncanonical_gap`, the known finding
+`calc-vs-vm-noncanonical-script`); (2) the wire round trip of the block is C17 (`block_lawful`), the header checks of
+`AddBlock` are C06; both are exercised on the real code by the `proposal` stream. -/
+theorem packing_valid_partial (c : Chain) (bal : Nat × Nat → Nat) (cfg : Cfg) (pool : List Tx) (inMain : Nat → Bool)
+    (inv ver : Bytes)
+    (hs : Sane cfg) (hfee : cfg.maxBlockSysFee = c.maxBlockSysFee)
+    (hwit : (encodeWitness inv ver).length = (encodeWitness cfg.inv cfg.ver).length)
+    (hcons : Consistent c.notary bal pool)
+    (hadm : ∀ t ∈ pool, admit c (freePool t) t = none) :
+    pick cfg pool <+: pool
+    ∧ (∀ R : Tx → Tx → Prop, pool.Pairwise R → (pick cfg pool).Pairwise R)
+    ∧ (cfg.maxTx ≠ 0 → (pick cfg pool).length ≤ cfg.maxTx)
+    ∧ (∀ j, 0 < j → j ≤ (pick cfg pool).length →
+        overheadOf cfg.stateRoot cfg.inv cfg.ver + varUintSize (capped cfg.maxTx pool).length
+            + ((pool.take j).map (·.size)).sum ≤ cfg.maxBlockSize
+        ∧ ((pool.take j).map (·.sysFee)).sum ≤ c.maxBlockSysFee)
+    ∧ ((pick cfg pool).length < (capped cfg.maxTx pool).length →
+        ∃ t, pool[(pick cfg pool).length]? = some t ∧
+          (overheadOf cfg.stateRoot cfg.inv cfg.ver + varUintSize (capped cfg.maxTx pool).length
+              + ((pick cfg pool).map (·.size)).sum + t.size > cfg.maxBlockSize
+            ∨ ((pick cfg pool).map (·.sysFee)).sum + t.sysFee > c.maxBlockSysFee))
+    ∧ (pick cfg pool ≠ [] ∨ expectedSizeWithoutTx cfg.stateRoot inv ver 0 ≤ cfg.maxBlockSize →
+        verifyBlock c bal inMain cfg.maxBlockSize cfg.stateRoot inv ver (pick cfg pool) = none
+        ∧ ledgerLoop c bal inMain 0 [] (pick cfg pool) = none) := by
+  obtain ⟨h1, h2, h3⟩ := pick_spec c cfg hs hfee pool hadm
+  have hp : pick cfg pool <+: pool := List.take_prefix _ _
+  refine ⟨hp, fun R hR => hR.sublist hp.sublist, ?_, h2, h3, pick_passes c bal cfg pool inMain inv ver hs hfee hwit hcons hadm⟩
+  intro hm
+  exact Nat.le_trans h1.length_le (Pack.capped_length _ _ hm)
+
+end NeoModel.C07
+
+
+namespace NeoModel.C07
+open NeoModel NeoModel.Fees NeoModel.Admission NeoModel.Pack
+open NeoModel.Generated.FeeConsts
+open NeoModel.Wire (varUintSize)
+
+/-! ### non-vacuity of `packing_valid_partial`: three admissible transactions, the size limit cuts after two -/
+
+def exT (h : Nat) : Tx := { exTx with hash := h, netFee := 1183520 }
+def exPoolTxs : List Tx := [exT 1, exT 2, exT 3]
+def exVals : List Bytes := [List.replicate 33 2]
+def exCfg : Cfg :=
+  { maxTx := 10, maxBlockSize := 700, maxBlockSysFee := 1000000, stateRoot := true,
+    inv := (defaultWitness exVals).1, ver := (defaultWitness exVals).2 }
+
+theorem sumFees_le_total (n : Nat) (q : Nat × Nat) (l : List Tx) : sumFees n q l ≤ (l.map fee).sum := by
+  induction l with
+  | nil => simp [sumFees]
+  | cons t ts ih =>
+    rw [sumFees_cons]
+    simp only [List.map_cons, List.sum_cons]
+    split <;> omega
+
+set_option maxRecDepth 100000 in
+theorem exPool_consistent : Consistent exChain.notary (fun _ => 10 ^ 10) exPoolTxs := by
+  refine ⟨by decide, by decide, by decide, ?_⟩
+  intro q
+  exact Nat.le_trans (sumFees_le_total _ q _) (by decide)
+
+set_option maxRecDepth 100000 in
+theorem exPool_admissible : ∀ t ∈ exPoolTxs, admit exChain (freePool t) t = none := by decide
+
+set_option maxRecDepth 100000 in
+theorem exCfg_sane : Sane exCfg := ⟨by decide, by decide, by decide, by decide⟩
+
+set_option maxRecDepth 100000 in
+/-- the hypotheses are met; two of the three transactions are taken (the third would make 853 > 700 bytes),
+and the block of two passes the backup's and the ledger's checks. -/
+example : (pick exCfg exPoolTxs).map (·.hash) = [1, 2]
+    ∧ verifyBlock exChain (fun _ => 10 ^ 10) (fun _ => false) 700 true exCfg.inv exCfg.ver (pick exCfg exPoolTxs) = none := by
+  have h := packing_valid_partial exChain (fun _ => 10 ^ 10) exCfg exPoolTxs (fun _ => false) exCfg.inv exCfg.ver
+    exCfg_sane rfl rfl exPool_consistent exPool_admissible
+  have hp : (pick exCfg exPoolTxs).map (·.hash) = [1, 2] := by decide
+  exact ⟨hp, (h.2.2.2.2.2 (Or.inl (by intro hn; rw [hn] at hp; simp at hp))).1⟩
+
+
+/-! ## 4b. what stays pooled after a block is admissible on the new state -/
+
+/-- **stillRelevant_sound.** A transaction that once passed the state-independent checks (system fee within the
+configured block limit, script, size) and whose standard witnesses are the builders' scripts with valid signatures
+(cost within MaxVerificationGas): if `IsTxStillRelevant` keeps it in the pool on state `c` — whatever happened to
+ExecFeeFactor, FeePerByte, attribute fees, MaxValidUntilBlockIncrement, blocked accounts, on-chain conflicts and
+height since it was pooled — then the chain part of `VerifyTx` accepts it on `c`. Contract-based and other
+non-standard witnesses are run again by the filter, so nothing is assumed about them. -/
+theorem stillRelevant_sound (c : Chain) (t : Tx)
+    (h1 : t.sysFee ≤ c.maxBlockSysFee) (h2 : t.scriptOk = true) (h3 : t.size ≤ maxTransactionSize)
+    (hstd : ∀ s ∈ t.signers, Wit.isStandard s.wit = true →
+      ∃ ver, StdWit c s.wit ver ∧ (calculate c.base ver).1 ≤ c.maxVerGas)
+    (h : stillRelevant c t = true) : admit c (freePool t) t = none := by
+  apply stillRelevant_sound_costs c t h1 h2 h3 _ h
+  intro w hw k hk
+  obtain ⟨s, hs, rfl⟩ := List.mem_map.mp hw
+  have hst : Wit.isStandard s.wit = true := by
+    cases hsw : s.wit with
+    | std a b ver =>
+      simp only [Wit.stdCost, hsw] at hk
+      split at hk
+      · rename_i hh; exact hh
+      · contradiction
+    | missing => simp [Wit.stdCost, hsw] at hk
+    | contract f => simp [Wit.stdCost, hsw] at hk
+  obtain ⟨ver, hsv, hle⟩ := hstd s hs hst
+  have hk' : k = (calculate c.base ver).1 := by
+    generalize s.wit = w at hsv hst hk
+    cases hsv with
+    | sig key sg hk1 hs1 hvk hv =>
+      simp only [Wit.stdCost, hst, if_true, Option.some.injEq] at hk
+      exact hk.symm
+    | multi keys sigs hm1 hmn hn hk1 hs1 hst1 hv =>
+      simp only [Wit.stdCost, hst, if_true, Option.some.injEq] at hk
+      exact hk.symm
+  subst hk'
+  exact ⟨stdWit_cost c s.wit ver hsv, hle⟩
+
+-- non-vacuity: the example transaction is kept on the example chain, and the theorem applies to it
+example : stillRelevant exChain (exT 1) = true ∧ admit exChain (freePool (exT 1)) (exT 1) = none := by
+  have hr : stillRelevant exChain (exT 1) = true := by decide
+  refine ⟨hr, stillRelevant_sound exChain (exT 1) (by decide) rfl (by decide) ?_ hr⟩
+  intro s hs _
+  simp only [exT, exTx, List.mem_singleton] at hs
+  subst hs
+  exact ⟨sigScript exKey, exStd, by rw [exCalc]; decide⟩
+
+/-! Regression examples for the two defects this property's check found in `IsTxStillRelevant` (fixed by 4f45775 and
+0375dbe; `stillRelevantOld` is the function before the fixes). The example transaction pays exactly the calculator's
+fee at base price 300000. -/
+
+/-- after the committee doubles ExecFeeFactor the old filter kept the transaction although `VerifyTx` rejects it
+(its witness runs out of gas); the fixed filter drops it. -/
+example : stillRelevantOld { exChain with base := 600000 } (exT 1) = true
+    ∧ admit { exChain with base := 600000 } (freePool (exT 1)) (exT 1) = some .witness
+    ∧ stillRelevant { exChain with base := 600000 } (exT 1) = false := by decide
+
+/-- the same after a raise of FeePerByte that the network fee still covers, but not together with the witness. -/
+example : stillRelevantOld { exChain with feePerByte := 1001 } (exT 1) = true
+    ∧ admit { exChain with feePerByte := 1001 } (freePool (exT 1)) (exT 1) = some .witness
+    ∧ stillRelevant { exChain with feePerByte := 1001 } (exT 1) = false := by decide
+
+/-- after MaxValidUntilBlockIncrement is lowered from 100 to 5 the old filter kept a transaction valid until
+block 20 at height 10. -/
+example : stillRelevantOld { exChain with maxVUBInc := 5 } (exT 1) = true
+    ∧ admit { exChain with maxVUBInc := 5 } (freePool (exT 1)) (exT 1) = some .notYetValid
+    ∧ stillRelevant { exChain with maxVUBInc := 5 } (exT 1) = false := by decide
+
+/-- **stillRelevant_noncanonical_gap** (negation witness; same root as the known finding
+`calc-vs-vm-noncanonical-script`). The hypothesis "standard witnesses are the builders' scripts" of
+`stillRelevant_sound` cannot be dropped: `ncScript` (2-of-3 with `m` pushed as PUSHINT128) is a standard contract
+for `scparser`, so the filter prices it with `fee.Calculate`, which is 90 datoshi below what the VM charges. A
+transaction paying exactly the VM's price at base 300000 is admitted; when the base price moves to 300001 the
+filter keeps it (2950390 ≤ 2950470) while `VerifyTx` rejects it (the VM now charges 2950480). -/
+def ncTx : Tx :=
+  { hash := 5, version := 0, scriptLen := 1, scriptOk := true, sysFee := 100, netFee := 200 * 1000 + 2950470, validUntil := 20,
+    size := 200, signers := [⟨10, false, .std true ncInv ncScript⟩], attrs := [] }
+
+set_option maxRecDepth 1000000 in
+theorem stillRelevant_noncanonical_gap :
+    admit exChain (freePool ncTx) ncTx = none
+    ∧ stillRelevant { exChain with base := 300001 } ncTx = true
+    ∧ admit { exChain with base := 300001 } (freePool ncTx) ncTx = some .witness := by decide
 
 end NeoModel.C07
 
@@ -318,5 +517,257 @@ theorem admit_wellformed (c : Chain) (p : Pool) (t : Tx) (h : admitWire c p t = 
 
 example : admitWire exChain exPool { exTx with netFee := 1183520 } = none := by decide
 example : admitWire exChain exPool { exTx with netFee := 1183520, signers := exTx.signers ++ exTx.signers } = some .malformed := by decide
+
+end NeoModel.C07
+
+namespace NeoModel.C07
+open NeoModel NeoModel.Fees NeoModel.Admission NeoModel.Pack NeoModel.Native
+open NeoModel.Generated.FeeConsts
+
+/-! ## 6. NotaryAssisted and OracleResponse transactions
+
+`Native.notaryVerify` / `Native.oracleVerify` are the `verify` methods of the native Notary / Oracle contracts;
+`Native.nativeWit k res` is such a method as a witness (price `k` observed on the real VM, result modelled). -/
+
+/-- a witness with the price a wallet computes for it: `fee.Calculate` for a standard one, a test run for a native
+contract's `verify` (neotest/basic.go:341-359, rpcsrv/server.go:1040-1050). -/
+def PricedWit (c : Chain) (w : Wit) (k : Nat) : Prop :=
+  (∃ ver, StdWit c w ver ∧ k = (calculate c.base ver).1) ∨ w = nativeWit k true
+
+/-- **special_threshold_exact.** A transaction whose witnesses are standard ones and native `verify`s that return
+true (each within MaxVerificationGas) and that passes every check not involving the fee — in particular a
+NotaryAssisted transaction (Notary's `verify`) or an oracle response (oracle nodes' multisig, optionally Oracle's
+`verify`): with NetworkFee = size·feePerByte + attribute fees + Σ prices it is accepted, with any smaller value
+rejected as "network fee too small" or by a witness running out of gas. -/
+theorem special_threshold_exact (c : Chain) (p : Pool) (t : Tx) (wcs : List (Wit × Nat))
+    (hpre : PreOk c t)
+    (hw : t.signers.map (·.wit) = wcs.map (·.1))
+    (hp : ∀ q ∈ wcs, PricedWit c q.1 q.2 ∧ q.2 ≤ c.maxVerGas)
+    (hattrs : verifyAttrs c { t with netFee := need c t + costSum wcs } = true)
+    (hpool : poolAdd p { t with netFee := need c t + costSum wcs } = none) :
+    admit c p { t with netFee := need c t + costSum wcs } = none
+    ∧ ∀ f, f < need c t + costSum wcs →
+        admit c p { t with netFee := f } = some .smallNetFee ∨ admit c p { t with netFee := f } = some .witness := by
+  apply threshold_exact_costs c p t wcs hpre hw _ hattrs hpool
+  intro q hq
+  obtain ⟨w, k⟩ := q
+  obtain ⟨h1, h2⟩ := hp (w, k) hq
+  refine ⟨?_, h2⟩
+  simp only at h1 ⊢
+  rcases h1 with ⟨ver, hs, rfl⟩ | rfl
+  · exact stdWit_cost c _ ver hs
+  · exact nativeWit_cost c k
+
+/-- **notary_fee_rule.** The attribute part of the threshold: a NotaryAssisted attribute adds
+`(NKeys + 1) · NotaryServiceFeePerKey` when P2PSigExtensions are on and nothing otherwise; an OracleResponse
+attribute adds its (flat) attribute fee. -/
+theorem notary_fee_rule (c : Chain) (n nk : Nat) (f : OracleFacts) (pre post : List Attr) :
+    attrsFee c n (pre ++ .notaryAssisted nk :: post)
+      = attrsFee c n pre + (if c.p2pSigExt then c.attrFee attrNotaryAssisted * (nk + 1) else 0) + attrsFee c n post
+    ∧ attrsFee c n (pre ++ .oracleResponse f :: post)
+      = attrsFee c n pre + c.attrFee attrOracleResponse + attrsFee c n post :=
+  ⟨attrsFee_notary c n nk pre post, attrsFee_oracle c n f pre post⟩
+
+/-- **notary_admit_sound.** If a transaction carrying a NotaryAssisted attribute is admitted and the witness of its
+Notary signer `s` (the first signer whose account is Notary; signers are distinct in every decodable transaction) is
+Notary's `verify` (price `k`, deposit of the second signer `dep`, `sigOk` = signed by a designated notary node), then:
+the attribute's hardfork is active, Notary signs with scope None, the signature is a designated node's, a transaction
+sent by Notary has exactly two signers and the payer's deposit covers system + network fee, and the network fee covers
+size, attribute fees and `k`. -/
+theorem notary_admit_sound (c : Chain) (p : Pool) (t : Tx) (nk k : Nat) (dep : Option Nat) (sigOk : Bool) (s : Signer)
+    (hop : OpaqueSound (t.signers.map (·.wit)))
+    (hattr : Attr.notaryAssisted nk ∈ t.attrs)
+    (hfind : t.signers.find? (·.account == c.notary) = some s)
+    (hwit : s.wit = nativeWit k (notaryVerify c t dep sigOk))
+    (h : admit c p t = none) :
+    c.notaryActive = true ∧ s.scopeNone = true ∧ sigOk = true
+    ∧ (sender t = c.notary → t.signers.length = 2 ∧ ∃ d, dep = some d ∧ t.netFee + t.sysFee ≤ d)
+    ∧ need c t + k ≤ t.netFee := by
+  obtain ⟨_, ⟨gs, hall, hsum⟩, hat, _⟩ := admit_sound_full c p t hop h
+  have hca := hat _ hattr
+  simp only [checkAttr, Bool.and_eq_true] at hca
+  have hs : s ∈ t.signers := List.mem_of_find?_eq_some hfind
+  obtain ⟨lim, g, hv, hg⟩ := allVerify_mem c _ gs hall s.wit (List.mem_map.mpr ⟨s, hs, rfl⟩)
+  rw [hwit] at hv
+  obtain ⟨hres, hgk⟩ := nativeWit_ok c k _ lim g hv
+  subst hgk
+  cases dep with
+  | none =>
+    simp [notaryVerify, hfind] at hres
+    obtain ⟨_, hsc, hmid, hsig⟩ := hres
+    exact ⟨hca.1.1, hsc, hsig, fun hsend => absurd hsend hmid, by omega⟩
+  | some d =>
+    simp [notaryVerify, hfind] at hres
+    obtain ⟨_, hsc, hmid, hsig⟩ := hres
+    refine ⟨hca.1.1, hsc, hsig, ?_, by omega⟩
+    intro hsend
+    rcases hmid with hn | ⟨h2, hd⟩
+    · exact absurd hsend hn
+    · exact ⟨h2, d, rfl, hd⟩
+
+/-- **oracle_admit_sound.** If a transaction carrying an OracleResponse attribute is admitted then: oracle nodes are
+designated and their account is among the signers, every signer has scope None, the script is the oracle response
+script, the request exists and system + network fee cover its GasForResponse. -/
+theorem oracle_admit_sound (c : Chain) (p : Pool) (t : Tx) (f : OracleFacts)
+    (hop : OpaqueSound (t.signers.map (·.wit)))
+    (hattr : Attr.oracleResponse f ∈ t.attrs) (h : admit c p t = none) :
+    ∃ hsh, c.oracleHash = some hsh ∧ (∀ s ∈ t.signers, s.scopeNone = true) ∧ (∃ s ∈ t.signers, s.account = hsh)
+      ∧ f.scriptOk = true ∧ f.requestOk = true ∧ f.gasForResponse ≤ t.netFee + t.sysFee := by
+  obtain ⟨_, _, hat, _⟩ := admit_sound_full c p t hop h
+  have hca := hat _ hattr
+  simp only [checkAttr] at hca
+  cases ho : c.oracleHash with
+  | none => simp [ho] at hca
+  | some hsh =>
+    simp only [ho, Bool.and_eq_true, List.all_eq_true, List.any_eq_true, beq_iff_eq, Bool.not_eq_true',
+      decide_eq_false_iff_not, Nat.not_lt] at hca
+    obtain ⟨⟨⟨⟨h1, h2⟩, h3⟩, h4⟩, h5⟩ := hca
+    exact ⟨hsh, rfl, h1, h2, h3, h4, h5⟩
+
+
+/-! ### non-vacuity: a NotaryAssisted and an oracle response transaction on the example chain -/
+
+def exNChain : Chain :=
+  { exChain with p2pSigExt := true, oracleHash := some 10,
+                 attrFee := fun t => if t = attrNotaryAssisted then 10000000 else if t = attrOracleResponse then 7 else 0 }
+
+/-- sender 10 (signature account), Notary (account 2, scope None) with its `verify` at 1000000 datoshi, NKeys = 1. -/
+def exNTx0 : Tx :=
+  { hash := 7, version := 0, scriptLen := 1, scriptOk := true, sysFee := 100, netFee := 0, validUntil := 20, size := 250,
+    signers := [⟨10, false, .std true (emitBytes exSig) (sigScript exKey)⟩, ⟨2, true, .missing⟩],
+    attrs := [.notaryAssisted 1] }
+def exNWit (fee : Nat) : Wit := nativeWit 1000000 (notaryVerify exNChain { exNTx0 with netFee := fee } none true)
+def exNTx (fee : Nat) : Tx :=
+  { exNTx0 with netFee := fee, signers := [⟨10, false, .std true (emitBytes exSig) (sigScript exKey)⟩, ⟨2, true, exNWit fee⟩] }
+
+/-- size·1000 + (1+1)·10000000 + 983520 (signature) + 1000000 (Notary.verify) = 22233520: accepted, one less: rejected. -/
+example : admit exNChain exPool (exNTx 22233520) = none ∧ admit exNChain exPool (exNTx 22233519) = some .witness := by decide
+
+example : need exNChain (exNTx 22233520) = 250 * 1000 + 10000000 * (1 + 1) := by decide
+
+/-- `notary_admit_sound` applies to it. -/
+example : exNChain.notaryActive = true ∧ need exNChain (exNTx 22233520) + 1000000 ≤ 22233520 := by
+  have h := notary_admit_sound exNChain exPool (exNTx 22233520) 1 1000000 none true ⟨2, true, exNWit 22233520⟩
+    (by intro f hf lim used hu
+        simp only [exNTx, exNWit, nativeWit, List.map_cons, List.map_nil, List.mem_cons, List.mem_nil_iff, or_false,
+          reduceCtorEq, false_or, Wit.contract.injEq] at hf
+        subst hf
+        exact nativeWit_le _ _ _ _ hu)
+    (by simp [exNTx, exNTx0]) rfl rfl (by decide)
+  exact ⟨h.1, h.2.2.2.2⟩
+
+/-- an oracle response: signed by the designated oracle nodes' account (10) with scope None, response script,
+existing request with GasForResponse 1500000, system fee making up the difference. -/
+def exOTx (fee sys : Nat) : Tx :=
+  { hash := 8, version := 0, scriptLen := 1, scriptOk := true, sysFee := sys, netFee := fee, validUntil := 20, size := 250,
+    signers := [⟨10, true, .std true (emitBytes exSig) (sigScript exKey)⟩],
+    attrs := [.oracleResponse ⟨0, true, true, 1500000⟩] }
+
+/-- 250·1000 + 7 + 983520 = 1233527 network fee; accepted when system fee makes up GasForResponse, rejected as invalid
+attribute with one unit less of it, and by the witness with one unit less of network fee. -/
+example : admit exNChain exPool (exOTx 1233527 266473) = none
+    ∧ admit exNChain exPool (exOTx 1233527 266472) = some .invalidAttr
+    ∧ admit exNChain exPool (exOTx 1233526 266474) = some .witness := by decide
+
+example : ∃ hsh, exNChain.oracleHash = some hsh ∧ (1500000 : Nat) ≤ 1233527 + 266473 := by
+  obtain ⟨hsh, h1, _, _, _, _, h6⟩ := oracle_admit_sound exNChain exPool (exOTx 1233527 266473) ⟨0, true, true, 1500000⟩
+    (by intro f hf; simp [exOTx] at hf) (by simp [exOTx]) (by decide)
+  exact ⟨hsh, h1, h6⟩
+
+end NeoModel.C07
+
+namespace NeoModel.C07
+open NeoModel NeoModel.Fees NeoModel.Admission NeoModel.Pack NeoModel.FeeFields
+open NeoModel.Generated.FeeConsts
+
+/-! ## 7. sign and overflow of the fee fields
+
+`FeeFields.feesValid` is the fee part of `Transaction.isValid` on the two 64-bit words of the wire form;
+`FeeFields.needM` / `attrsFeeM` / `smallNetFeeM` are `needNetworkFee`, `CalculateAttributesFee` and the test
+`NetworkFee - need < 0` with int64 wrap-around. -/
+
+/-- **fee_fields_wellformed.** Two wire words pass the decoder's checks iff, read as int64, both are non-negative
+and their mathematical sum is below 2^63 — so for every decoded transaction `SystemFee`, `NetworkFee` and
+`SystemFee + NetworkFee` (used as uint64 by the pool and by the oracle gas test) are the natural numbers the
+admission model computes with. -/
+theorem fee_fields_wellformed (sysU netU : Nat) (hs : sysU < 2 ^ 64) (hn : netU < 2 ^ 64) :
+    feesValid sysU netU = none ↔ sysU < 2 ^ 63 ∧ netU < 2 ^ 63 ∧ sysU + netU < 2 ^ 63 :=
+  feesValid_iff sysU netU hs hn
+
+example : feesValid (2 ^ 64 - 1) 5 = some .negSys ∧ feesValid 5 (2 ^ 63) = some .negNet
+    ∧ feesValid (2 ^ 63 - 1) 1 = some .tooBig ∧ feesValid (2 ^ 63 - 2) 1 = none := by decide
+
+/-- **fee_arithmetic_exact.** At verification time nothing wraps either: for a transaction within
+MaxTransactionSize, FeePerByte and attribute fees within Policy's maxima, at most 16 signers and 16 attributes and
+one-byte key counts, the int64 values of `CalculateAttributesFee` and of `needNetworkFee` are the exact sums of the
+admission model, and `NetworkFee - need < 0` is `NetworkFee < need`. -/
+theorem fee_arithmetic_exact (c : Chain) (t : Tx)
+    (hsz : t.size ≤ maxTransactionSize) (hfpb : c.feePerByte ≤ policy_maxFeePerByte)
+    (hns : t.signers.length ≤ maxAttributes) (hna : t.attrs.length ≤ maxAttributes)
+    (hattr : ∀ a ∈ t.attrs, c.attrFee a.typ ≤ policy_maxAttributeFee ∧ ∀ nk, a = .notaryAssisted nk → nk ≤ 255)
+    (hnet : t.netFee < 2 ^ 63) :
+    attrsFeeM c.p2pSigExt t.signers.length (t.attrs.map (toM c)) 0 = (attrsFee c t.signers.length t.attrs : Int)
+    ∧ needM t.size c.feePerByte (attrsFee c t.signers.length t.attrs) = (need c t : Int)
+    ∧ smallNetFeeM t.netFee (needM t.size c.feePerByte (attrsFee c t.signers.length t.attrs)) = decide (t.netFee < need c t) := by
+  have hb : t.attrs.length * attrBound ≤ 16 * attrBound := Nat.mul_le_mul_right _ (by simpa [maxAttributes] using hna)
+  have h16 : 16 * attrBound < 2 ^ 62 := by decide
+  obtain ⟨h1, h2⟩ := attrsFeeM_exact c t.signers.length hns t.attrs 0 hattr (by simp only [Nat.reducePow] at h16 ⊢; omega)
+  have haf : attrsFee c t.signers.length t.attrs < 2 ^ 62 := by omega
+  obtain ⟨h3, h4⟩ := needM_exact t.size c.feePerByte (attrsFee c t.signers.length t.attrs) t.netFee hsz hfpb haf hnet
+  refine ⟨by simpa using h1, by simpa [need] using h3, by unfold need; exact h4⟩
+
+example : needM 200 1000 0 = 200000 ∧ smallNetFeeM 199999 (needM 200 1000 0) = true := by decide
+
+end NeoModel.C07
+
+namespace NeoModel.C07
+open NeoModel NeoModel.Fees NeoModel.Admission NeoModel.Pack
+open NeoModel.Generated.FeeConsts
+
+/-! ## 8. what the admission reads of the chain -/
+
+/-- **admit_depends_only_on.** The verdict on a transaction depends on the chain state only through: height,
+configuration and Policy values, the cryptography, the attribute fee of the attribute types the transaction carries,
+the blocked flag of its signers, and what is stored under its own hash and under the hashes its Conflicts attributes
+name. Two states that agree on these give the same verdict, whatever else they hold — other transactions, other
+conflict records, other accounts. -/
+theorem admit_depends_only_on (c c' : Chain) (p : Pool) (t : Tx) (s : SameFor c c' t) : admit c p t = admit c' p t :=
+  admit_congr c c' p t s
+
+-- non-vacuity: a chain with an unrelated conflict record and an unrelated blocked account
+example : admit { exChain with lookup := fun h => if h = 99 then .stub 3 [(10, 3)] else .none,
+                               blocked := fun a => a == 77 } exPool (exT 1) = admit exChain exPool (exT 1) :=
+  admit_depends_only_on _ _ _ _ ⟨rfl, rfl, rfl, rfl, rfl, rfl, rfl, rfl, rfl, rfl, rfl, rfl, rfl, rfl, rfl, rfl,
+    by simp [exT, exTx], by simp [exT, exTx, exChain], by simp [exT, exTx, exChain], by simp [exT, exTx, conflictHashes]⟩
+
+/-- **conflict_record_blocks_iff.** The exact dependence on a conflict record (`dao.HasTransaction`): the record
+under the transaction's hash makes the transaction inadmissible iff it is inside the traceability window
+(`index ≤ height < index + MaxTraceableBlocks`) and some signer of the transaction has a per-signer record inside
+the window. Records of other signers, or of its signers but beyond the edge, never block. -/
+theorem conflict_record_blocks_iff (idx : Nat) (recs : List (Nat × Nat)) (signers : List Nat) (height mtb : Nat)
+    (hne : signers ≠ []) :
+    hasTransaction (.stub idx recs) signers height mtb = some .hasConflicts
+      ↔ isTraceable idx height mtb = true ∧ ∃ a ∈ signers, ∃ q ∈ recs, q.1 = a ∧ isTraceable q.2 height mtb = true :=
+  stub_blocks_iff idx recs signers height mtb hne
+
+-- at the edge: a record of signer 10 at index 6 with MaxTraceableBlocks 5 blocks at height 10 and not at 11; the stub's
+-- own (newest) index 9 stays in the window
+example : hasTransaction (.stub 9 [(10, 6), (11, 9)]) [10] 10 5 = some .hasConflicts
+    ∧ hasTransaction (.stub 9 [(10, 6), (11, 9)]) [10] 11 5 = none := by decide
+
+/-- **standard_witness_state_independent.** Running a witness reads, of the chain, only the base execution fee,
+MaxVerificationGas, the signature-length rule and the cryptography: between two states that agree on these a witness
+made of the modelled opcodes gives the same result with the same gas. (Only contract-based witnesses — a function of
+the state in the real node — can change their verdict when the chain moves without a Policy change; those are the ones
+the pool's filter runs again.) -/
+theorem standard_witness_state_independent (c c' : Chain) (gas : Nat) (hashOk : Bool) (inv ver : Bytes)
+    (hb : c.base = c'.base) (hm : c.maxVerGas = c'.maxVerGas) (hg : c.gorgon = c'.gorgon)
+    (hk : c.validKey = c'.validKey) (hv : c.verify = c'.verify) :
+    verifyOne c gas (.std hashOk inv ver) = verifyOne c' gas (.std hashOk inv ver) :=
+  verifyOne_congr c c' gas _ hb hm hg hk hv
+
+example : verifyOne { exChain with height := 500, lookup := fun _ => .tx } 1000000 (.std true (emitBytes exSig) (sigScript exKey))
+    = verifyOne exChain 1000000 (.std true (emitBytes exSig) (sigScript exKey)) :=
+  standard_witness_state_independent _ _ _ _ _ _ rfl rfl rfl rfl rfl
 
 end NeoModel.C07
